@@ -181,6 +181,16 @@ func (c *client) setLastPongAt(t time.Time) {
 func (c *client) dial(ctx context.Context, dialer DialConnFunc) (err error) {
 	c.Lock()
 	defer c.Unlock()
+	// a closed client makes no connection attempt. The test is made under
+	// the lock that Close takes (shared) after closing closeCh: a Close that
+	// has returned is seen here, and a Close that comes later waits for this
+	// attempt and then closes the conn it installed. The reconnect loop's
+	// own test lies several statements (and log calls) before the dial.
+	select {
+	case <-c.closeCh:
+		return errConnClosed
+	default:
+	}
 	// keep the previous (closed) conn when the dial fails: storing the nil
 	// result made the next Do dereference a nil conn
 	conn, err := dialer(ctx, c.Logger, c.addr, c.handshake, c.dialOptions)
